@@ -1,4 +1,4 @@
 From Coq Require Import ExtrOcamlBasic NArith List.
 From LV Require Import lib.Conv lib.Bytes model.CrashBase model.SyncedPool model.Flagged.
 Extraction "model.ml" conv_roots run_step run_init frun_step frun_init crash check_synced
-  apply_dops arrange dget.
+  apply_dops arrange dget check_loop restart_pool restart_flagged.
